@@ -193,11 +193,13 @@ namespace igris
         void erase(iterator first, iterator last)
         {
             size_t sz = last - first;
-            for (size_t i = 0; i < sz; ++i)
+            iterator stop = end();
+            iterator dst = first;
+            for (iterator src = last; src != stop; ++src, ++dst)
             {
-                igris::destructor(first + i);
+                *dst = std::move(*src);
             }
-            std::move(last, end(), first);
+            igris::array_destructor(dst, stop);
             m_size -= sz;
         }
 
